@@ -1,4 +1,4 @@
-// unit merkle: src/tree/merkle_tree.rs (verification path) and src/tree/merkle_tree_changeset.rs     C04 C09 C03 C05
+// unit hash: src/crypto/hash.rs against the Hypercore v10 scheme     C05 C04
 #![feature(allocator_api)]
 use vstd::prelude::*;
 verus! {
@@ -8,14 +8,9 @@ verus! {
 //@include shim/fixedwidth.rs
 //@include shim/flat_tree.rs
 //@include shim/crypto.rs
-//@include shim/either.rs
-//@include shim/intmap.rs
 pub use compact_encoding::*;
-pub use intmap::IntMap;
 pub use ed25519_dalek::{SigningKey, VerifyingKey, Signature};
 broadcast use vp_std::group_std_gaps, compact_encoding::lemma_enc_uint_len, ed25519_dalek::group_key_lens, crypto::axiom_blake2b_len;
-
-/*@ item dep:compact-encoding-2.2.0/src/lib.rs macro map_decode @*/
 
 //@include shim/common_types.rs
 //@include shim/node_types.rs
@@ -23,8 +18,7 @@ broadcast use vp_std::group_std_gaps, compact_encoding::lemma_enc_uint_len, ed25
 //@include shim/hash.rs
 //@include shim/blake2.rs
 //@include shim/node_trait.rs
-//@include-assumed frag/hash.rs
-//@include frag/merkle_verify.rs
+//@include frag/hash.rs
 
 } // verus!
 fn main() {}
